@@ -1,6 +1,6 @@
 // Native replay for the C04 slices of typed_arg.hpp: the real Handler with a fixed-size destination of CV_N ints that lives in a heap
 // block of exactly CV_N ints (ASan red zone behind it).  Build: -DCV_N=<n> -DCV_KIND=<0 C array | 1 std::array>, linked with the
-// prog_args sources of /repo (see cvlib/c04.py).  argv: index first
+// prog_args sources of /repo (see cvlib/c04.py).  argv: index first [unique]
 //   index: number of values already stored when the call under test starts (the counterexample's mIndex)
 //   first: 1 = the value under test is the first token of its argument word, 0 = it follows another token in the same word
 // Outcome: an exception derived from std::exception or a normal return is fine; a sanitizer report (non-zero exit) reproduces.
@@ -12,7 +12,23 @@
 #include <string>
 #include "celma/appl/arg_string_2_array.hpp"
 #include "celma/prog_args.hpp"
-#if CV_KIND == 2
+#if CV_KIND == 3
+// std::vector< bool> destination of the given initial size: argv: size value.  Built with -D_GLIBCXX_ASSERTIONS: libstdc++ then checks
+// the index of vector<bool>::operator[] (an access behind size() inside the last storage word is invisible to ASan)
+#include <vector>
+int main(int argc, char** argv) {
+  if (argc < 3) return 2;
+  std::vector<bool>& bits = *new std::vector<bool>(strtoull(argv[1], 0, 10));
+  celma::prog_args::Handler ah(0);
+  ah.addArgument("a,array", DEST_VAR(bits), "values");
+  std::string line = std::string("--array=") + argv[2];
+  auto const as2a = celma::appl::make_arg_array(line, nullptr);
+  try { ah.evalArguments(as2a.mArgC, as2a.mpArgV); printf("accepted: %s\n", line.c_str()); }
+  catch (const std::exception& e) { printf("rejected with std::exception: %s\n", line.c_str()); }
+  printf("NOT-REPRODUCED: real code stays inside the destination on this input\n");
+  return 0;
+}
+#elif CV_KIND == 2
 // std::bitset destination: argv: value  -- the position text handed to TypedArg< std::bitset< N>>::assign (any integer, also negative);
 // the bitset has max(CV_N, 200) bits in a heap block of its own so that a wild word index faults
 #include <bitset>
@@ -43,7 +59,7 @@ int main(int argc, char** argv) {
   arr_t& arr = *new arr_t;
 #endif
   celma::prog_args::Handler ah(0);
-  ah.addArgument("a,array", DEST_VAR(arr), "values");
+  { auto arg = ah.addArgument("a,array", DEST_VAR(arr), "values"); if (argc > 3 && atoi(argv[3]) != 0) arg->setUniqueData(); }   // argv[3]: unique data (duplicates are skipped)
   // reach the state: `index` values stored, then one more value as first / non-first token
   std::string line; int v = 1;
   if (first) { if (index > 0) { line = "-a "; for (size_t i = 0; i < index; ++i) line += (i ? "," : "") + std::to_string(v++); line += " "; } line += "-a " + std::to_string(v++); }
